@@ -156,7 +156,10 @@ func (rt *runtime) cmplEvaluateNodeBinaryExpression(node *nodeBinaryExpression) 
 		return right.resolve()
 	}
 
-	return rt.calculateBinaryExpression(node.operator, leftValue, rt.cmplEvaluateNodeExpression(node.right))
+	// GetValue of the right operand precedes every conversion of the operands (11.5 - 11.10 step 4)
+	rightValue := rt.cmplEvaluateNodeExpression(node.right).resolve()
+
+	return rt.calculateBinaryExpression(node.operator, leftValue, rightValue)
 }
 
 func (rt *runtime) cmplEvaluateNodeBinaryExpressionComparison(node *nodeBinaryExpression) Value {
